@@ -273,7 +273,7 @@ fn rand_op(rng: &mut Rng, mode: Mode, pool: &[String], g: &mut GenState) -> Op {
     // SAFETY of the machine: in dual mode a root table named "/..." gets the location file:///... outside
     // the sandbox (Url::join of an absolute path; part of finding path_unsafe_name).  Never write data there.
     let op = match op {
-        Op::CreateTable(i) if mode == Mode::Dual && i.len() == 1 && i[0].starts_with('/') => Op::CreateEmptyTable(i),
+        Op::CreateTable(i) if mode == Mode::Dual && i.len() == 1 && (i[0].starts_with('/') || i[0].starts_with('\\')) => Op::CreateEmptyTable(i),
         o => o,
     };
     if !op.id().is_empty() && !g.ids.contains(op.id()) {
@@ -441,9 +441,10 @@ fn arm_ascii(cx: &mut Ctx, args: &Args, rng: &mut Rng) {
     }
     for c in chars {
         let n = format!("a{}", c);
-        let n2 = format!("{}b", c);
+        let n2 = format!("{}q", c);
         for mode in [Mode::Dir, Mode::Manifest, Mode::Dual] {
-            let safe_root = !n2.starts_with('/') || mode != Mode::Dual;
+            // Url::join treats a leading '/' AND a leading '\\' as an absolute path (file:///...): never write data there
+            let safe_root = !(n2.starts_with('/') || n2.starts_with('\\')) || mode != Mode::Dual;
             let ops = if mode == Mode::Dir {
                 vec![
                     Op::CreateEmptyTable(vec![n.clone()]),
